@@ -105,9 +105,20 @@ def r01a(chk, rid='R01.a'):
         raise AnalysisError('CSSParser: no store of the parse mode found')
     for nm, st in ons:
         chk.ob(rid, PARSE, f'CSSParser.{nm}', "switching on selects the parser's own raising flag", text(st.value) == 'self.__parseRaising', text(st))
-    init = chk.repo.fn(PARSE, 'CSSParser.__init__')
-    dflt = [text(n) for n in ast.walk(init) if isinstance(n, ast.Assign) and '__parseRaising' in text(n.targets[0])]
-    chk.ob(rid, PARSE, 'CSSParser.__init__', 'default parse mode is non-raising', 'self.__parseRaising = False' in dflt, str(dflt))
+    # the default parse mode, by evaluation of the constructor
+    from sa.absint import Evaluator, Obj, Raised, Record
+
+    pm = chk.repo.mod(PARSE)
+    init = pm.get('CSSParser.__init__')
+    for given, want in ((None, False), (False, False), (True, True)):
+        me = Obj()
+        intr = {'cssutils': Record(log=Record(raiseExceptions='GLOBAL', setLog=lambda l: None, setLevel=lambda l: None), stylesheets=Record(MediaList=lambda *a, **k: Record())),
+                'tokenize2': Record(Tokenizer=lambda **k: Record())}
+        r = Evaluator(init, intrinsics=intr, module=pm, cls='CSSParser').run(self=me, raiseExceptions=given)
+        if isinstance(r, Raised):
+            raise AnalysisError(f'CSSParser.__init__: {r!r}')
+        got = getattr(me, '__parseRaising', 'unset')
+        chk.ob(rid, PARSE, 'CSSParser.__init__', f'CSSParser(raiseExceptions={given}) parses in ' + ('raising' if want else 'logging') + ' mode', bool(got) == want and got != 'unset', f'the parse mode is {got!r}')
 
 
 # ---------------------------------------------------------------------------
